@@ -47,6 +47,8 @@ type Card struct {
 	// chunking policy for READ BINARY
 	MaxReturn    int         // at most this many bytes per response (0 = no cap)
 	ShortReadRNG *mrand.Rand // when set, return a random 1..allowed number of bytes
+	// PageSize > 0: a response never crosses a multiple of PageSize (page-oriented memory)
+	PageSize int
 	// ShortReadMinNe: short random reads only apply to requests longer than this
 	ShortReadMinNe int
 	LeCap          int    // when > 0: Ne above this is refused ...
@@ -306,6 +308,9 @@ func (c *Card) doReadBinary(cmd *Cmd) ([]byte, uint16) {
 		if c.EOFWarning {
 			sw = 0x6282
 		}
+	}
+	if c.PageSize > 0 && off/c.PageSize != (off+n-1)/c.PageSize {
+		n = c.PageSize - off%c.PageSize
 	}
 	if c.MaxReturn > 0 && n > c.MaxReturn {
 		n = c.MaxReturn
